@@ -67,6 +67,15 @@ def InDom (n : Nat) : Option Int → Prop
 instance (n : Nat) (b : Option Int) : Decidable (InDom n b) := by
   cases b <;> unfold InDom <;> exact inferInstance
 
+/-- the widened domain: `None` or any integer `≥ -n` — a bound beyond the end is clipped by the read
+(`dset[lo:hi]`), exactly as Python clips `list[lo:hi]`; only literals below `-n` stay outside -/
+def InDomW (n : Nat) : Option Int → Prop
+  | none => True
+  | some k => -(n : Int) ≤ k
+
+instance (n : Nat) (b : Option Int) : Decidable (InDomW n b) := by
+  cases b <;> unfold InDomW <;> exact inferInstance
+
 namespace Tbl
 
 /-- decidable equality of results, so that closed examples can be checked by `decide` -/
